@@ -95,8 +95,11 @@ def check_mode(b, case, ctx, plain, mode):
 
 def check_one(case, ctx, deep):
     plain = lib.strip(case)
-    for rep in range(2 if deep else 1):
-        b = Built(case, ctx, plain)
+    for rep in range(3 if deep else 1):
+        if rep != 1:   # rep 1 repeats every query on the SAME objects (answers may not depend on having been asked before)
+            b = Built(case, ctx, plain)
+        else:          # ... nor on what other contexts were created and asked in between
+            lib.interfere(case)
         objs_at, props_at = b.ref.labels()
         k = len(b.ref.concepts)
         multi = (any(len(v) >= 2 for v in objs_at.values()) or any(len(v) >= 2 for v in props_at.values())
